@@ -93,7 +93,7 @@ class C14(Prop):
     budget_s = {'quick': 240, 'thorough': 3000}
 
     def cases(self, tier, seed, want):
-        ndocs = 700 if tier == 'quick' else 16000
+        ndocs = 700 if tier == 'quick' else 9000
         k = 0
         for j in range(ndocs):
             rng = random.Random('%d/%d/c14' % (seed, j))
